@@ -14,8 +14,13 @@ verify_script` and the op-code functions of `engine/script_op_codes.py`, mirrore
 
 Dispatch is by op-code byte here; `Props/C08.lean: btclib_dispatch_is_the_name_table` proves that it is the
 if-chain of `_run_ops` over the name table and the OPERATIONS keys regenerated from the source.
-The signature op codes are outside this model (`unsupported`): `Props/C08.lean` states the refinement
-`Btclib.eval = Core.evalWith` for the families it covers.
+The signature op codes are in the model as the loop has them (pop order, `assert_nullfail`, `encode_num(int(result))`,
+the CHECKMULTISIG bookkeeping with its two counts, the key/signature walk, `assert_nulldummy`, the `[OP_CHECKSIG,
+OP_VERIFY]` / `[OP_CHECKMULTISIG, OP_VERIFY]` expansions, `codesep_offset = op_code_stops[script_index]`); the function
+they all end in, `op_checksig` (one signature against one key: `fix_signature`, `check_pub_key`,
+`calculate_script_code`, the signature hash and `dsa_verify`), is a PARAMETER of the model (`Ctx.opChecksig`).
+`sharedChecksig` below is Core's sequence for one signature and one key over a `Core.Checker`; with it for
+`opChecksig` both evaluators call the same checker (`Props/C08.lean: btclib_eval_refines_core_partial`).
 -/
 namespace Btc.Script.Btclib
 
@@ -28,6 +33,16 @@ structure Ctx where
   txLockTime : Nat := 0
   txSequence : Nat := 0xFFFFFFFF
   txVersion : Nat := 1
+  /-- `op_checksig(signature, signatures, pub_key, script_bytes, codesep_offset, prevout_value, tx, i, flags, segwit, …)`
+      of engine/script.py, arguments in the order (script_bytes, signature, signatures, pub_key, codesep_offset);
+      `none` = it raises.  A parameter: see the header. -/
+  opChecksig : Bytes → Bytes → List Bytes → Bytes → Nat → Option Bool := fun _ _ _ _ _ => some false
+  /-- the signature checker (signature hash + verification) behind `opChecksig`; the loop never reads it — it is here so
+      that `Refine.coreCx` hands Core's side the same one (`opChecksig = sharedChecksig checker flags segwit`) -/
+  checker : Core.Checker := ⟨fun _ _ _ _ => .ok false, fun _ _ _ _ => some .SCHNORR_SIG⟩
+  /-- `script_bytes` and `op_code_stops`, the two arguments of `_run_ops` the loop only reads (set by `eval`) -/
+  scriptBytes : Bytes := []
+  opCodeStops : List Nat := []
 
 def minimaldata (cx : Ctx) : Bool := Core.has cx.flags Core.FLAG_MINIMALDATA
 
@@ -71,6 +86,8 @@ def operation (cx : Ctx) (code : Nat) (stack alt : List Bytes) : Option OpRes :=
   | 0x69 => match stack with | a :: r => if toBool a then some (.done r alt) else none | _ => none   -- op_verify
   | 0x87 => match stack with | a :: b :: r => some (.done (boolBytes (a == b) :: r) alt) | _ => none -- op_equal
   | 0x88 => some (.expand stack alt [0x87, 0x69])                                                    -- op_equalverify
+  | 0xad => some (.expand stack alt [0xac, 0x69])                                                    -- op_checksigverify
+  | 0xaf => some (.expand stack alt [0xae, 0x69])                                                    -- op_checkmultisigverify
   | 0x6a => none                                                                                     -- op_return
   | 0x82 => match stack with | a :: r => some (.done (enc (a.length : Nat) :: a :: r) alt) | _ => none -- op_size
   | 0xa6 => match stack with | a :: r => some (.done (cx.hashes.ripemd160 a :: r) alt) | _ => none
@@ -208,6 +225,8 @@ structure St where
   scriptIndex : Int := -1
   /-- the unread stream `s` -/
   s : Bytes
+  /-- `codesep_offset` -/
+  codesepOffset : Nat := 0
 
 /-- `read_push_data`'s reading: (data, what is left of the stream) -/
 def readPushData (t : Nat) (s : Bytes) : Option (Bytes × Bytes) :=
@@ -236,15 +255,91 @@ where getB0 (d : Bytes) : Nat := (d.headD 0).toNat
 
 inductive Next | more (st : St) | finished (st : St) | unsupported
 
+/-- the `for pub_key_index in range(pub_key_num)` walk of OP_CHECKMULTISIG over the keys and signatures still to
+    try, both in pop order: the signatures left unmatched, or `none` where `op_checksig` raises -/
+def multisigWalk (cx : Ctx) (codesepOffset : Nat) (signatures : List Bytes) : List Bytes → List Bytes → Option (List Bytes)
+  | [], sigs => some sigs
+  | key :: keys, sigs =>
+    match sigs with
+    | [] => some []                                              -- signature_index == signature_num: break
+    | sig :: rest =>
+      if keys.length + 1 < rest.length + 1 then some (sig :: rest)   -- fewer keys left than signatures: break
+      else
+        match cx.opChecksig cx.scriptBytes sig signatures key codesepOffset with
+        | none => none
+        | some ok => multisigWalk cx codesepOffset signatures keys (if ok then rest else sig :: rest)
+
+/-- the `elif op == "OP_CHECKMULTISIG":` arm of `_run_ops` from `pub_keys = [stack.pop() …]` on: the stack it leaves -/
+def checkMultisigRest (cx : Ctx) (r1 : List Bytes) (pubKeyNum : Int) (codesepOffset : Nat) : Option (List Bytes) :=
+  if r1.length < pubKeyNum.toNat then none                -- pub_keys = [stack.pop() for _ in range(pub_key_num)]
+  else
+    match r1.drop pubKeyNum.toNat with
+    | [] => none
+    | ns :: r2 =>
+      match num cx ns with                                -- signature_num = _to_num(stack.pop(), …)
+      | none => none
+      | some sigNum =>
+        if !(decide (0 ≤ sigNum) && decide (sigNum ≤ pubKeyNum)) then none   -- assert_signature_num
+        else if r2.length < sigNum.toNat then none        -- signatures = [stack.pop() for _ in range(signature_num)]
+        else
+          let signatures := r2.take sigNum.toNat
+          match r2.drop sigNum.toNat with
+          | [] => none
+          | dummy :: r3 =>
+            if !dummy.isEmpty && Core.has cx.flags Core.FLAG_NULLDUMMY then none   -- assert_nulldummy
+            else
+              match multisigWalk cx codesepOffset signatures (r1.take pubKeyNum.toNat) signatures with
+              | none => none
+              | some left =>
+                if left.isEmpty then some ([1] :: r3)
+                -- assert_nullfail(flags, False, signatures, …)
+                else if Core.has cx.flags Core.FLAG_NULLFAIL && signatures.any (fun s => !s.isEmpty) then none
+                else some ([] :: r3)
+
+/-- the `elif op == "OP_CHECKMULTISIG":` arm of `_run_ops` on (stack, op_code_num, codesep_offset): the stack and the
+    op count it leaves -/
+def checkMultisigOn (cx : Ctx) (stack : List Bytes) (opCodeNum : Int) (codesepOffset : Nat) : Option (List Bytes × Int) :=
+  match stack with
+  | [] => none
+  | nk :: r1 =>
+    match num cx nk with                                          -- pub_key_num = _to_num(stack.pop(), …)
+    | none => none
+    | some pubKeyNum =>
+      if !(decide (0 ≤ pubKeyNum) && decide (pubKeyNum ≤ (Gen.Script.N_MAX_PUBKEYS_PER_MULTISIG : Int))) then none   -- assert_pub_key_num
+      else
+        match (Gen.Script.script_op_count opCodeNum pubKeyNum).toOption with    -- op_code_num = script_op_count(…)
+        | none => none
+        | some cnt => (checkMultisigRest cx r1 pubKeyNum codesepOffset).map fun s => (s, cnt)
+
+def checkMultisig (cx : Ctx) (st : St) : Option Next :=
+  (checkMultisigOn cx st.stack st.opCodeNum st.codesepOffset).map fun p => .more { st with stack := p.1, opCodeNum := p.2 }
+
+/-- the `if op == "OP_CHECKSIG":` arm on (stack, codesep_offset): the stack it leaves -/
+def checksigOn (cx : Ctx) (stack : List Bytes) (codesepOffset : Nat) : Option (List Bytes) :=
+  match stack with
+  | pubKey :: signature :: r =>
+    match cx.opChecksig cx.scriptBytes signature [signature] pubKey codesepOffset with
+    | none => none
+    | some result =>
+      -- assert_nullfail(flags, result, [signature], "OP_CHECKSIG")
+      if Core.has cx.flags Core.FLAG_NULLFAIL && !result && !signature.isEmpty then none
+      else some (enc (if result then 1 else 0) :: r)
+  | _ => none
+
 /-- the if-chain of `_run_ops` on an op code that is not a push and is evaluated (executing branch, or OP_IF..OP_ENDIF);
     `st` already has the byte consumed, the index advanced and the op counted -/
 def dispatch (cx : Ctx) (t : Nat) (st : St) : Option Next :=
   match kind t with
-  | .checksig | .checkmultisig => some .unsupported
+  | .checksig => (checksigOn cx st.stack st.codesepOffset).map fun s => .more { st with stack := s }
+  | .checkmultisig => checkMultisig cx st
   | .cltv => (cltv cx st.stack).map fun _ => .more st
   | .csv => (csv cx st.stack).map fun _ => .more st
   | .digit n => some (.more { st with stack := enc (n : Nat) :: st.stack })
-  | .codesep => some (.more st)
+  | .codesep =>
+    -- codesep_offset = op_code_stops[script_index]
+    match cx.opCodeStops[st.scriptIndex.toNat]? with
+    | none => none
+    | some off => some (.more { st with codesepOffset := off })
   | .opIf | .opNotif =>
     -- op_if / op_notif
     if !(st.cond.all id) then some (.more { st with cond := false :: st.cond })
@@ -268,15 +363,13 @@ def dispatch (cx : Ctx) (t : Nat) (st : St) : Option Next :=
   | .nopN =>
     if Core.has cx.flags Core.FLAG_DISCOURAGE_UPGRADABLE_NOPS then none else some (.more st)
   | .operation =>
-    if t = 0xad ∨ t = 0xaf then some .unsupported   -- CHECKSIGVERIFY / CHECKMULTISIGVERIFY expand to unsupported op codes
-    else
-      match operation cx t st.stack st.alt with
-      | none => none
-      | some (.done s a) => some (.more { st with stack := s, alt := a })
-      | some (.expand s a r) =>
-        some (.more { st with stack := s, alt := a, scriptIndex := st.scriptIndex - r.length,
-                              opCodeNum := st.opCodeNum - r.length,
-                              s := r.map UInt8.ofNat ++ st.s })
+    match operation cx t st.stack st.alt with
+    | none => none
+    | some (.done s a) => some (.more { st with stack := s, alt := a })
+    | some (.expand s a r) =>
+      some (.more { st with stack := s, alt := a, scriptIndex := st.scriptIndex - r.length,
+                            opCodeNum := st.opCodeNum - r.length,
+                            s := r.map UInt8.ofNat ++ st.s })
   | .unknown => none
 
 /-- one pass through the `while True:` of `_run_ops` -/
@@ -330,7 +423,28 @@ def eval (cx : Ctx) (script : Bytes) (stack : List Bytes) : Out :=
   -- prepare_script: "OP_CODESEPARATOR" in parse(script) and CONST_SCRIPTCODE and not segwit
   else if (Script.parse script).1.any (fun o => o.code == 0xab) && Core.has cx.flags Core.FLAG_CONST_SCRIPTCODE && !cx.segwit then
     .refused
-  else loop cx (3 * script.length + 2) { stack := stack, s := script }
+  else
+    -- op_code_stops = [stop for _, _, stop in op_code_spans(script_bytes)] if "OP_CODESEPARATOR" in script else []
+    let stops := if (Script.parse script).1.any (fun o => o.code == 0xab) then (opCodeSpans script).map (·.2.2) else []
+    loop { cx with scriptBytes := script, opCodeStops := stops } (3 * script.length + 2) { stack := stack, s := script }
+
+/-- Core's sequence for ONE signature against ONE key (`EvalChecksigPreTapscript` without its NULLFAIL tail, which is the
+    inner body of OP_CHECKMULTISIG's loop too), with the signature of btclib's `op_checksig`: the script code is the
+    script from `codesep_offset` with every element of `signatures` removed by FindAndDelete (legacy only;
+    SIG_FINDANDDELETE under CONST_SCRIPTCODE), then `CheckSignatureEncoding`, `CheckPubKeyEncoding`, and the checker.
+    With this for `Ctx.opChecksig` the btclib-shaped loop and Core's transcription call the same `checker`. -/
+def sharedChecksig (checker : Core.Checker) (flags : Nat) (segwit : Bool)
+    (scriptBytes signature : Bytes) (signatures : List Bytes) (pubKey : Bytes) (codesepOffset : Nat) : Option Bool :=
+  let cx : Core.Ctx := { flags := flags, sigversion := if segwit then .WITNESS_V0 else .BASE, hashes := ⟨id, id, id⟩,
+                         checker := checker, script := scriptBytes }
+  let r : Core.R Bool := do
+    let sc ← Core.multisigScriptCode cx signatures (scriptBytes.drop codesepOffset)
+    Core.checkSignatureEncoding flags signature
+    Core.checkPubKeyEncoding flags cx.sigversion pubKey
+    checker.checkECDSA signature pubKey sc cx.sigversion
+  match r with
+  | .ok b => some b
+  | .error _ => none
 
 end Btc.Script.Btclib
 
